@@ -5,7 +5,7 @@ import signac.project as P
 from vflib.hutil import pick, reached, part_ok, kf_filter, spy, tier, fresh_path, nt, ci, cb
 
 CODE = ["signac.project.Project._job_dirs", "signac.project.JOB_ID_REGEX", "signac.job.Job (init, document, clear, reset, remove, statepoint edits/assignment, update_statepoint, move, copy/pickle support)", "signac.job._StatePointDict._save", "signac.project.Project (open_job, clone, update_cache, check, __len__/__iter__/__contains__)"]
-BOUNDS = {"histories": "closed universe {a:0|1} x {b absent|0}; initial workspace = any subset (quick: 3 subsets, handles on {a:0}/{a:1}) with/without document+file; two independent handles (different state points) plus shallow copies; 27 operation instances; history length <= 2 (quick) / 3 (thorough, restricted initial states); two projects; after EVERY step: ids/state points/documents/files through a fresh session == model, check() passes, directory name == hash of its state point file, len/iter/contains agree, no temp/backup files, live handles describe their job", "listing": "E3: all strings (unbounded length) over z3's character sort; E1: directory names of length in {0,1,31,32,33,40} built from a fill character, one deviating character at a position in {0,1,16,30,31,32} and a last character, each from {a,0,g,.,A}"}
+BOUNDS = {"histories": "closed universe {a:0|1} x {b absent|0}; initial workspace = any subset (quick: 3 subsets, handles on {a:0}/{a:1}) with/without document+file; two independent handles (different state points) plus shallow copies; 28 operation instances; history length <= 2 (quick) / 3 (thorough, restricted initial states); two projects; after EVERY step: ids/state points/documents/files through a fresh session == model, check() passes, directory name == hash of its state point file, len/iter/contains agree, no temp/backup files, live handles describe their job", "listing": "E3: all strings (unbounded length) over z3's character sort; E1: directory names of length in {0,1,31,32,33,40} built from a fill character, one deviating character at a position in {0,1,16,30,31,32} and a last character, each from {a,0,g,.,A}"}
 OUTSIDE = ["universes with more keys / values / nesting in the history harness (nested edits: C04)", "H5 stores (h5py not installed)", "handles pickled into another process (in-process pickle round trips: C04)", "histories longer than 3"]
 STUBS = ["os.listdir of the workspace returns the symbolic name (E1 listing harness)"]
 ASSUMPTIONS = []
@@ -66,13 +66,13 @@ E2 = True
 U = [{"a": 0}, {"a": 1}, {"a": 0, "b": 0}, {"a": 1, "b": 0}]
 # (op, args) instances; the slot is a separate symbolic variable
 OPS = [("init", ()), ("doc_set", ("k", 1)), ("doc_del", ("k",)), ("put", ("f", b"F")), ("put", ("sub/g", b"G")), ("clear", ()), ("reset", ()), ("remove", ()),
-       ("sp_set", ("a", 0)), ("sp_set", ("a", 1)), ("sp_set", ("b", 0)), ("sp_del", ("b",)), ("sp_assign", ({"a": 1},)), ("sp_assign", ({"a": 0, "b": 0},)),
+       ("sp_set", ("a", 0)), ("sp_set", ("a", 1)), ("sp_set", ("b", 0)), ("sp_del", ("b",)), ("sp_assign", ({"a": 1},)), ("sp_assign", ({"a": 0, "b": 0},)), ("sp_assign", ({"a": 0},)),
        ("sp_update", ({"b": 0}, False)), ("sp_update", ({"a": 1}, False)), ("sp_update", ({"a": 1}, True)), ("sp_update", ({"b": 0, "a": 1}, False)), ("sp_update", ({"b": 0, "a": 1}, True)), ("move", ("/q",)), ("clone", ("/q",)), ("update_cache", ()),
        ("copy", ("copy",)), ("reopen", (False,)), ("reopen", (True,)), ("doc_reset", ({"r": [1, {"s": None}]},)), ("restart", ())]
 NOP = len(OPS)
 
 
-def _hist_case(mask, payload, i0, i1, steps):
+def _hist_case(mask, payload, i0, i1, steps, byid=0):
     s = ws.Sim(paths=("/p", "/q"))
     problems = []
     try:
@@ -81,8 +81,9 @@ def _hist_case(mask, payload, i0, i1, steps):
                 s.add_job("/p", U[i], doc={"k": 0} if payload & 1 else None, files={"f": b"0"} if payload & 2 else None)
         s.add_job("/q", {"a": 9}, doc={"q": 1})
         s.restart("/p")
-        s.open(0, "/p", U[i0])
-        s.open(1, "/p", U[i1])
+        # initial handles: by state point, or (bit set and the job exists) by id in the fresh session - a handle that has not loaded its state point yet
+        s.open(0, "/p", U[i0], by_id=bool(byid & 1 and mask >> i0 & 1))
+        s.open(1, "/p", U[i1], by_id=bool(byid & 2 and mask >> i1 & 1))
         for n, (slot, oi) in enumerate(steps):
             op, args = OPS[oi]
             if slot not in s.handles:
@@ -105,7 +106,7 @@ def _hist_case(mask, payload, i0, i1, steps):
                 if not s.apply(slot, op, *args):
                     problems.append((n, "outcome", s.errors[-1]))
                     break
-            if not (s.agree("/p") and s.agree("/q")):
+            if not (s.agree("/p") and s.agree("/q") and s.session_agree("/p") and s.session_agree("/q")):
                 problems.append((n, op, args, "workspace != model", s.errors[-3:]))
                 break
             for sl in list(s.handles):
@@ -121,23 +122,24 @@ def _hist_case(mask, payload, i0, i1, steps):
     return (not problems), problems
 
 
-def h_hist(mask: int, payload: int, i0: int, i1: int, s0: int, o0: int, s1: int, o1: int, s2: int, o2: int, n: int):
+def h_hist(mask: int, payload: int, i0: int, i1: int, s0: int, o0: int, s1: int, o1: int, s2: int, o2: int, n: int, byid: int):
     """histories of n operations through two independent handles (plus shallow copies) on two projects, from a symbolic initial workspace"""
     assert 0 <= mask < 16 and 0 <= payload <= 3 and 0 <= i0 < 4 and 0 <= i1 < 4 and i0 != i1 and 0 <= s0 <= 1 and 0 <= s1 <= 1 and 0 <= s2 <= 1
     assert 0 <= o0 < NOP and 0 <= o1 < NOP and 0 <= o2 < NOP and 1 <= n <= 3 and part_ok(o0)
-    assert (n >= 2 or (o1 == 0 and s1 == 0)) and (n >= 3 or (o2 == 0 and s2 == 0))
+    assert (n >= 2 or (o1 == 0 and s1 == 0)) and (n >= 3 or (o2 == 0 and s2 == 0)) and 0 <= byid <= 3
+    assert tier() != "quick" or byid in (0, 1)
     assert s0 == 0   # by symmetry of the two slots the first operation uses slot 0
     assert (n <= 2 and mask in (0, 1, 3) and payload == 3 and i0 < 2 and i1 < 2) if tier() == "quick" else (n <= 2 or (mask in (1, 3) and payload == 3 and i0 == 0))
     fresh_path()
-    mask, payload, i0, i1, n = ci(mask, 0, 15), ci(payload, 0, 3), ci(i0, 0, 3), ci(i1, 0, 3), ci(n, 1, 3)
+    mask, payload, i0, i1, n, byid = ci(mask, 0, 15), ci(payload, 0, 3), ci(i0, 0, 3), ci(i1, 0, 3), ci(n, 1, 3), ci(byid, 0, 3)
     steps = [(ci(s0, 0, 1), ci(o0, 0, NOP - 1)), (ci(s1, 0, 1), ci(o1, 0, NOP - 1)), (ci(s2, 0, 1), ci(o2, 0, NOP - 1))][:n]
     with nt():
-        r = _hist_case(mask, payload, i0, i1, steps)
+        r = _hist_case(mask, payload, i0, i1, steps, byid)
     reached()
     assert r[0]
 
 
-def h_hist__reach(mask: int, payload: int, i0: int, i1: int, s0: int, o0: int, s1: int, o1: int, s2: int, o2: int, n: int):
+def h_hist__reach(mask: int, payload: int, i0: int, i1: int, s0: int, o0: int, s1: int, o1: int, s2: int, o2: int, n: int, byid: int):
     assert 0 <= mask < 16 and 0 <= o0 < NOP
     mask, o0 = ci(mask, 0, 15), ci(o0, 0, NOP - 1)
     with nt():
@@ -156,7 +158,7 @@ def h_hist__reach(mask: int, payload: int, i0: int, i1: int, s0: int, o0: int, s
 
 HARNESSES = [
     dict(name="h_listing", twin="h_listing__reach", timeout=(300, 600), parts=(6, 6)),
-    dict(name="h_hist", twin="h_hist__reach", timeout=(900, 3000), parts=(27, 27)),
+    dict(name="h_hist", twin="h_hist__reach", timeout=(900, 3000), parts=(28, 28)),
 ]
 
 
